@@ -64,7 +64,13 @@ def prove_one(args):
                           note='no feasible path reaches a normal exit: contradictory precondition?', detail=''))
     # vacuity guard (cover): some exit's path condition together with its postcondition must be satisfiable;
     # `unsat` means the contract's assumptions contradict each other and every proof below would be vacuous
-    cover = [ob for ob in rep.obligations if ob.kind in ('post', 'raises')][:3]
+    # one candidate per exit (the first postcondition obligation of each run of them), at most 8 exits
+    cover, prev = [], None
+    for ob in rep.obligations:
+        if ob.kind in ('post', 'raises') and prev not in ('post', 'raises'):
+            cover.append(ob)
+        prev = ob.kind
+    cover = cover[:8]
     if cover:
         import z3 as _z3
         verdict = 'unsat'
